@@ -7,7 +7,7 @@
 //! Bounded only by the number of ppoll calls answered EINTR (call budget below).
 #![allow(unused_imports, clippy::all)]
 use tiny_std::io::{Read, Write};
-use tiny_std::net::UnixStream;
+use tiny_std::net::{TcpStream, UnixStream};
 
 pub const BUDGET: usize = 5; // first attempt + <= 3 ppoll + retry
 
@@ -101,6 +101,33 @@ mod proofs {
         let r = s.read(&mut buf);
         check(nr::READ, r);
         kani::cover!(k::trace_len() == 3, "waited once, retried");
+        core::mem::forget(s);
+    }
+
+    /// time-limited variant (TcpStream::read_with_timeout, any Duration in whole seconds): the same
+    /// trace clauses; a limit that does not fit the kernel's timespec is an error before any system call
+    #[kani::proof]
+    #[kani::unwind(10)]
+    pub fn c16_stream_timed_read_reports_kernel_count() {
+        k::reset();
+        k::set_mode(k::MODE_ANY);
+        k::set_call_budget(BUDGET);
+        let fd: i32 = kani::any();
+        kani::assume(fd >= 0);
+        let mut s = unsafe { core::mem::transmute::<i32, TcpStream>(fd) };
+        let secs: u64 = kani::any();
+        let mut buf = [0u8; 4];
+        let r = s.read_with_timeout(&mut buf, core::time::Duration::from_secs(secs));
+        if k::trace_len() == 0 {
+            assert!(secs > i64::MAX as u64);
+            assert!(r.is_err());
+            assert!(!matches!(r, Err(tiny_std::Error::Timeout)));
+        } else {
+            assert!(secs <= i64::MAX as u64);
+            check(nr::READ, r);
+        }
+        kani::cover!(k::trace_len() == 3, "waited once, retried");
+        kani::cover!(k::trace_len() == 0, "limit rejected");
         core::mem::forget(s);
     }
 }
